@@ -22,6 +22,11 @@ RULE = (
     "indexed with `db create`; `S note [W kinds] O keys` (every ordering key list drawn, ungrouped) is run through "
     "swog.execute and through a refreshed .zoq page; the output placed under a header must compile without "
     "errors to exactly the selected notes (multiset of kind, ZID, body) as read from the raw index rows.  "
+    "(moved) C10's directories and moves (inherited metadata, destinations of every shape, done / cancelled markers): "
+    "the lines `note move` adds, on their own under a header, are one valid item with the note's ZID, and the note "
+    "compiled from the destination has the requested kind, the same ZID, dates, priority, body words and "
+    "continuation lines and at least the tags and properties it had (inherited ones now explicit); clauses about "
+    "placement and about the rest of the two files belong to C10 and are skipped here.  "
     "Non-trivial = multi-line note, or a body whose first word is a look-alike, or a done/cancelled todo; "
     "distinct by SHA-1 of the case."
 )
@@ -175,7 +180,29 @@ def check_sets(case, rec: Rec) -> None:
     rec.nontrivial = len(sel) >= 2 and any("\n" in n["body"] or n["kind"] in ("CLOSED_TODO", "CANCELED_TODO") for n in sel)
 
 
+# ---------------------------------------------------------------- moved notes
+
+# clauses of C10's move oracle that speak about the text of the moved note (not about where it was put or
+# what happened to the rest of the two files)
+_MOVED_CLAUSES = {"moved-text-not-one-valid-item", "moved-note-kind", "moved-note-lost-tag", "moved-note-lost-property",
+                  "moved-note-dates", "moved-note-priority", "moved-note-body"}
+
+
+def check_moved(case, rec: Rec) -> None:
+    from . import c10
+
+    c10.check(case, rec, only=_MOVED_CLAUSES)
+
+
+def _moved_case():
+    from . import c10
+
+    return c10._case().map(lambda c: dict(c, max_moves=5))
+
+
 def sample_view(case):
+    if "moves" in case:
+        return f"pages {sorted(case['dir'])}; moves {[(m['zid'], m['dest'], m['marker']) for m in case['moves']]}"
     if "page" in case:
         return P.render(case["page"], case["today"])[0] + "\n".join(case.get("odd", []))
     return f"pages {sorted(case['dir'])}; S note W {case['kinds']} O {case['order']} ({'zoq' if case['zoq'] else 'execute'})"
@@ -184,6 +211,8 @@ def sample_view(case):
 def parts(tier):
     quick = tier == "quick"
     return [HypPart(name="notes", check=check_notes, strategy=_note_case,
-                    examples=40 if quick else 1200, seconds=30 if quick else 500),
+                    examples=40 if quick else 1200, seconds=24 if quick else 500),
             HypPart(name="sets", check=check_sets, strategy=_set_case,
-                    examples=25 if quick else 700, seconds=30 if quick else 500)]
+                    examples=25 if quick else 700, seconds=24 if quick else 500),
+            HypPart(name="moved", check=check_moved, strategy=_moved_case,
+                    examples=6 if quick else 300, seconds=22 if quick else 400)]
